@@ -17,6 +17,8 @@ PROP = "C17"
 MODULES = ["C17"]
 GEN = ["HstrpHandler"]
 MATCHERS = {}
+# extra files for the drift detector (the property's own anchors are always included)
+ANCHORS = ["okdmr/dmrlib/hytera/pdu/hdap.py", "okdmr/dmrlib/hytera/pdu/radio_ip.py"]
 
 ADDR_A = ("192.0.2.1", 30001)
 ADDR_B = ("192.0.2.2", 30002)
